@@ -609,6 +609,11 @@ Proof. induction ops as [|o r IH]; intros s I; cbn [run]; [exact I | apply IH, I
 Corollary Inv_reachable ops : Inv (run init ops).
 Proof. apply Inv_run, Inv_init. Qed.
 
+Theorem count_invariant ops c :
+  let s := run init ops in
+  rc (o_tab (ow s)) c = recv_sum (h_trk (hd s)) c + inflight (ch_oh s) c + decs (ch_ho s) c + cnt (leaked s) c.
+Proof. exact (inv_count _ (Inv_reachable ops) c). Qed.
+
 (* ------------------------------------------------------------------ *)
 (* the owner's ids: never reused; the table is a partial bijection object <-> clid *)
 
@@ -1005,6 +1010,69 @@ Proof.
   exists [Send 1 true; RecvOH]. vm_compute. split; [repeat split|]. split; [constructor | discriminate].
 Qed.
 
+(* the EXACT account of what is left at quiescence, in every history: the owner's refcount of a clid is the number of
+   my-references with that clid that travelled in calls the receiver discarded -- nothing else is ever left *)
+Lemma quiescent_recv_zero s : Inv s -> quiescent s -> no_proxy s -> Forall (fun t => t_recv t = 0) (h_trk (hd s)).
+Proof.
+  intros I (Q1 & Q2 & Q3) Np. rewrite Forall_forall. intros t Hin. apply In_nth_error in Hin as (i & Hi).
+  pose proof (inv_recv s I) as R. rewrite Forall_forall in R. specialize (R t (nth_error_In _ _ Hi)).
+  destruct (Z.eq_dec (t_recv t) 0) as [E|E]; [exact E|]. exfalso.
+  destruct (inv_pend s I i t Hi) as [H|H]; [lia | | rewrite Q3 in H; exact H].
+  unfold no_proxy in Np. rewrite Forall_forall in Np. apply H. apply Np. eapply nth_error_In; eauto.
+Qed.
+
+Theorem leak_exact ops :
+  let s := run init ops in
+  quiescent s -> no_proxy s -> forall c, rc (o_tab (ow s)) c = cnt (leaked s) c.
+Proof.
+  intros s Q Np c. pose proof (Inv_reachable ops) as I. fold s in I.
+  pose proof (quiescent_recv_zero s I Q Np) as Z0. destruct Q as (Q1 & Q2 & Q3).
+  rewrite (inv_count s I c), (recv_sum_zero _ _ Z0), Q1, Q2. cbn. lia.
+Qed.
+
+Lemma cnt_all_zero l : (forall c, cnt l c = 0) -> l = [].
+Proof.
+  destruct l as [|a l]; [reflexivity|]. intros H. specialize (H a). cbn [cnt] in H. rewrite Z.eqb_refl in H.
+  pose proof (cnt_nonneg l a). lia.
+Qed.
+
+(* the guard of no_leak is necessary and sufficient: the table drains iff no call carrying a reference was discarded *)
+Theorem no_leak_iff ops :
+  let s := run init ops in
+  quiescent s -> no_proxy s -> (o_tab (ow s) = [] <-> leaked s = []).
+Proof.
+  intros s Q Np. split.
+  - intros E. apply cnt_all_zero. intros c. pose proof (leak_exact ops Q Np c) as L. cbv zeta in L. fold s in L.
+    rewrite E in L. cbn in L. lia.
+  - intros E. apply (no_leak ops Q Np E).
+Qed.
+
+(* ... and every discarded my-reference does pin its object: the entry is there, for the object the clid was allocated for *)
+Theorem discarded_reference_pins ops :
+  let s := run init ops in
+  forall c, In c (leaked s) ->
+  exists e, find_clid (o_tab (ow s)) c = Some e /\ cnt (leaked s) c <= oe_rc e /\ In (c, oe_obj e) (o_alloc (ow s)).
+Proof.
+  intros s c Hin. pose proof (Inv_reachable ops) as I. fold s in I.
+  pose proof (OwnWf_run ops init OwnWf_init) as W. fold s in W.
+  assert (P : 1 <= cnt (leaked s) c).
+  { revert Hin. generalize (leaked s). intros l. induction l as [|a l IH]; cbn [In cnt]; [tauto|]. intros [->|H].
+    - rewrite Z.eqb_refl. pose proof (cnt_nonneg l c). lia.
+    - specialize (IH H). destruct (a =? c); lia. }
+  pose proof (inv_count s I c) as C.
+  pose proof (recv_sum_nonneg _ c (inv_recv s I)). pose proof (inflight_nonneg (ch_oh s) c).
+  pose proof (decs_nonneg _ c (inv_dpos s I)).
+  destruct (rc_pos_found (o_tab (ow s)) c) as (e & F & R); [lia|].
+  exists e. split; [exact F|]. split; [lia|].
+  pose proof (ow_logged s W) as G. rewrite Forall_forall in G. apply find_clid_some in F as [Hi Ec].
+  specialize (G e Hi). rewrite Ec in G. exact G.
+Qed.
+
+Example leak_exact_example :
+  let s := run init [Send 1 true; Send 1 true; Send 2 false; RecvOH; RecvOH; RecvOH; DropProxy 0; HandleRefLost; RecvHO; RecvOH] in
+  quiescent s /\ no_proxy s /\ leaked s = [1; 1] /\ rc (o_tab (ow s)) 1 = 2 /\ rc (o_tab (ow s)) 2 = 0.
+Proof. vm_compute. repeat split; repeat constructor. Qed.
+
 (* non-vacuity of no_leak: a history with re-sends racing releases that ends quiescent with an empty table *)
 Example no_leak_example :
   let s := run init [Send 1 false; Send 2 false; RecvOH; DropProxy 0; HandleRefLost; Send 1 false; RecvHO; RecvOH; RecvOH;
@@ -1133,29 +1201,3 @@ Qed.
 Example counting_while_subscribing_releases_early :
   aa_fired (aand_new CountWhileSubscribing [true; false]) = true /\ npending [true; false] = 1%nat.
 Proof. split; reflexivity. Qed.
-
-(* ------------------------------------------------------------------ *)
-(* C09, third-party introductions: while a gift is outstanding the gifter's proxy is alive (so no decref is sent and the
-   owner keeps the object), whatever the gifter's application does with its own reference *)
-
-Lemma gift_table_pins_proxy_spec : gift_table_pins_proxy = true.
-Proof. reflexivity. Qed.
-
-Lemma gifts_nonneg ops : forall g, 0 <= g_gifts g -> 0 <= g_gifts (grun g ops).
-Proof.
-  induction ops as [|o r IH]; intros g H; cbn [grun]; [exact H|]. apply IH.
-  destruct o; cbn [gstep]; [destruct (g_app g); cbn; lia | cbn; lia | destruct (0 <? g_gifts g) eqn:E; cbn; [apply Z.ltb_lt in E; lia | lia]].
-Qed.
-
-Theorem gift_outstanding_keeps_proxy ops :
-  let g := grun ginit ops in 0 < g_gifts g -> gproxy_alive gift_table_pins_proxy g = true.
-Proof.
-  intros g H. unfold gproxy_alive. rewrite gift_table_pins_proxy_spec. apply Z.ltb_lt in H. rewrite H.
-  cbn [andb]. apply Bool.orb_true_r.
-Qed.
-
-(* the statement discriminates: without the proxy in the table entry, give-away followed by the application's drop leaves
-   an outstanding gift whose proxy is dead *)
-Example unpinned_gift_dies :
-  let g := grun ginit [GiveAway; AppDrops] in 0 < g_gifts g /\ gproxy_alive false g = false.
-Proof. cbn. split; [lia | reflexivity]. Qed.
